@@ -24,7 +24,7 @@ THEOREMS = [P + t for t in ("flow_is_modelled", "identity_unset_refused", "ident
                               "content_after_history", "nid_unique_rewrite_counterexample", "nid_unique_partial", "backends_agree_partial",
                               "backends_diverge_on_rehoming_counterexample", "disjoint_container_refines_reference",
                               "disjoint_find_matching_refines", "backends_agree_find_matching", "reference_is_local",
-                              "backends_agree_rekey")]
+                              "backends_agree_rekey", "backends_agree_after_any_histories")]
 TRUSTED_BASE = [
     "Model/Store.lean, Model/DStore.lean mirror the two backends method by method; Model/AGraph.lean (`AGraph.step`) is the "
     "reference model of the documented interface (hand-written; all three are run in lock step against the real classes)",
@@ -39,6 +39,10 @@ TRUSTED_BASE = [
     "harness/props/c05.py `Ref`: an independent python reference of the documented interface used only by the oracle "
     "(three-way comparison); the Lean `AGraph.step` is tied to the code by its own correspondence stream (A)",
     "the stores' threading.Lock is replaced by a counting stand-in in single-threaded histories (locks are C20's)",
+    "a graph HANDLE is stateless in all models (Store.step, DStore.step, AGraph.step, ARef.step and the python Ref take the "
+    "graph id inside the operation): the implementation side of every stream is driven through handle OBJECTS kept for the whole "
+    "history (one per graph id / two per graph id / a fresh one per call, cycling over the histories; corpus cases in all three "
+    "modes), so state a handle keeps between calls - also after a refused call - shows as a difference to the models",
 ]
 ASSUMPTIONS = [
     "property values are any JSON value without floats (str, None, '', 0, False, ints, bools, lists, dicts); non-string values are "
@@ -52,7 +56,13 @@ ASSUMPTIONS = [
     "first successful merge; the refinement of merge_nodes to the reference model needs the (GraphID, NodeID) keys of the stored "
     "nodes to be pairwise distinct (UniqueKeys: an invariant of every history that does not rewrite keys)",
     "imports and clones are C04's for the backend comparison (the backends deliberately differ there: replace vs. warn-and-skip); "
-    "the store-level reference and its correspondence stream include them",
+    "the store-level reference and its correspondence stream include them; the oracle runs clone / import histories on the disjoint "
+    "backend through kept handle objects only to see that merge_nodes is refused through every one of them",
+    "after the backends have parted company over a known or documented difference (a GraphID rewrite the disjoint store cannot "
+    "follow; a merge only the shared store performs) the oracle keeps executing the history on both: a read-only request about a "
+    "graph that both backends still show with the same content (nodes carrying its id and links between them) must get the same "
+    "answer from both - asked by the history itself and by a sweep of 12 read-only requests per graph id right after the parting, "
+    "every third call after it and at the end of every history",
 ]
 RULE = ("corpus first, then state-aware operation histories (depth <= 40) plus every continuation of depth 2 of a fixed two-graph prefix over a "
         "53-operation alphabet (thorough: also depth 3 over the 28 operations addressed to the first graph or to both); 3 graph ids, "
@@ -60,7 +70,9 @@ RULE = ("corpus first, then state-aware operation histories (depth <= 40) plus e
         "writes GraphID / NodeID in 10-12% of the updates / initial properties / merge policies, merges a graph with itself, calls "
         "delete_all_graphs, and (correspondence only) imports, imports directly and clones; 12% of the histories open with a chain of "
         "merges over three graphs sharing a node id (self-links included); non-trivial = >= 2 graphs touched and >= 1 failing call; "
-        "distinct by op-kind sequence")
+        "distinct by op-kind sequence; all histories through kept handle objects (cycle one / one / two / fresh / one / two per graph id); after a "
+        "parting the disjoint backend keeps running and read-only requests on graphs shown alike are compared (sweeps of 12 requests per "
+        "graph id); 60 (thorough 600) clone / import / merge histories on the disjoint backend through kept handle objects")
 
 CORPUS = os.path.join(core.CORPUS_DIR, "C05")
 C05_KINDS = (["add_node"] * 5 + ["delete_node", "add_link", "add_link", "add_link", "update_node_property", "unset_node_property",
@@ -76,6 +88,16 @@ def load_corpus():
                 with open(os.path.join(CORPUS, fn)) as f:
                     out.append(json.load(f)["history"])
     return out
+
+
+HANDLE_CYCLE = ["one", "one", "two", "fresh", "one", "two"]
+
+
+def handle_mode(i):
+    """which handle OBJECTS serve history number i on the implementation side (lib_store.Backend `handles`): mostly one
+    object per graph id kept for the whole history (failing calls included), often two per graph id, sometimes a new one per
+    call.  The models and the reference know a handle as its graph id only."""
+    return HANDLE_CYCLE[i % len(HANDLE_CYCLE)]
 
 
 def merge_chain(rng, gids, nids):
@@ -368,7 +390,8 @@ def run_correspondence(hs, res):
         lines, meta = [], []
         impl = []
         for hi, h in enumerate(hs):
-            be = L.Backend(flavour)
+            be = L.Backend(flavour, handles=handle_mode(hi), hseed=hi)
+            res.count("%s:handles:%s" % (tagc, handle_mode(hi)))
             lines.append(json.dumps([tagc, "reset"]))
             meta.append(None)
             tr = []
@@ -402,8 +425,8 @@ def run_correspondence(hs, res):
                 got = L.canon_raw(rep[1]) if rep[0] == "ok" else rep
             if canon(got) != canon(exp):
                 bad.add(hi)
-                res.disagreements.append({"case": {"flavour": flavour, "history": h[:k + 1]}, "at": [k, what],
-                                          "impl": exp, "model": got})
+                res.disagreements.append({"case": {"flavour": flavour, "history": h[:k + 1], "handles": handle_mode(hi), "hseed": hi},
+                                          "at": [k, what], "impl": exp, "model": got})
         for hi, h in enumerate(hs):
             if any(r[0] == "err" for r, _ in impl[hi]) and len(set(q[1] for q in h)) >= 2:
                 res.nontrivial.add(L.kind_seq(h))
@@ -426,7 +449,7 @@ def run_reference_correspondence(hs, res):
     gids = ["g1", "g2", "g3"]
     lines, meta, impl = [], [], []
     for hi, h in enumerate(hs):
-        be = L.Backend("shared")
+        be = L.Backend("shared", handles=handle_mode(hi + 1), hseed=hi)
         lines.append(json.dumps(["A", "reset"]))
         meta.append(None)
         tr = []
@@ -459,7 +482,8 @@ def run_reference_correspondence(hs, res):
             got = lean_content(rep[1]) if rep[0] == "ok" else rep
         if canon(got) != canon(exp):
             bad.add(hi)
-            res.disagreements.append({"case": {"flavour": "reference", "history": h[:k + 1]}, "at": [k, what, g],
+            res.disagreements.append({"case": {"flavour": "reference", "history": h[:k + 1], "handles": handle_mode(hi + 1), "hseed": hi},
+                                      "at": [k, what, g],
                                       "impl": exp, "model": got})
 
 
@@ -477,7 +501,7 @@ def run_store_reference_correspondence(hs, res):
     nodes with one key (counted)."""
     lines, meta, impl = [], [], []
     for hi, h in enumerate(hs):
-        be = L.Backend("shared")
+        be = L.Backend("shared", handles=handle_mode(hi + 2), hseed=hi)
         lines.append(json.dumps(["R", "reset"]))
         meta.append(None)
         tr = []
@@ -512,7 +536,8 @@ def run_store_reference_correspondence(hs, res):
             got = L.canon_keyed(rep[1]) if rep[0] == "ok" else rep
         if canon(got) != canon(exp):
             bad.add(hi)
-            res.disagreements.append({"case": {"flavour": "store-reference", "history": h[:k + 1]}, "at": [k, what],
+            res.disagreements.append({"case": {"flavour": "store-reference", "history": h[:k + 1], "handles": handle_mode(hi + 2),
+                                               "hseed": hi}, "at": [k, what],
                                       "impl": exp, "model": got})
 
 
@@ -547,17 +572,91 @@ def neighbours(be, g, nid, idents=None):
     return out
 
 
-def check_history(h, res, with_ref=True):
-    sh, dj = L.Backend("shared"), L.Backend("disjoint")
+SWEEP_NIDS = ["n1", "n2", "n3"]
+
+
+def sweep_queries(g):
+    """read-only requests asked of both backends about graph g once they have parted (and at the end of every history)"""
+    return ([["graph_exists", g], ["list_all_node_ids", g], ["nodes_by_class", g, "Link"], ["nodes_by_class", g, "NetworkNode"],
+             ["nodes_by_class_and_type", g, "Link", "x"], ["node_exists", g, "n1", "NetworkNode"], ["node_exists", g, "n2", "Link"],
+             ["check_node_unique", g, "NetworkNode", "x"], ["get_link_properties", g, "n1", "n2"]]
+            + [["get_node_properties", g, x] for x in SWEEP_NIDS])
+
+
+def rsig(r):
+    return (str(r[1]) if isinstance(r[1], bool) else "ok") if r[0] == "ok" else r[1]
+
+
+def load_handle_corpus():
+    d = os.path.join(CORPUS, "handles")
+    out = []
+    if os.path.isdir(d):
+        for fn in sorted(os.listdir(d)):
+            if fn.endswith(".json"):
+                with open(os.path.join(d, fn)) as f:
+                    out.append(json.load(f))
+    return out
+
+
+def check_handle_objects(c, res):
+    """histories with storage operations (import, clone) on ONE backend, driven through kept handle objects - the object
+    clone_graph returns included: on the disjoint backend every merge_nodes is refused with RuntimeError and changes nothing,
+    whichever handle object of the graph is used"""
+    be = L.Backend(c["flavour"], handles=c.get("handles", "one"), hseed=c.get("hseed", 0))
+    h = c["history"]
+    gs = sorted(set(r[1] for r in h) | set(r[2] for r in h if r[0] == "clone") | set(r[3] for r in h if r[0] == "merge_nodes"))
+    for k, req in enumerate(h):
+        before = {g: be.content(g) for g in gs}
+        rep = be.apply(req)
+        res.count("handle-objects:%s:%s" % (req[0], rsig(rep)))
+        if req[0] == "merge_nodes" and c["flavour"] == "disjoint":
+            after = {g: be.content(g) for g in gs}
+            if rep != ["err", "runtime"] or after != before:
+                res.violation("C05:disjoint:merge_nodes:not-refused:%s" % ("store-changed" if after != before else rsig(rep)),
+                              "the disjoint backend documents merge_nodes as unsupported (RuntimeError); through a kept handle "
+                              "object it answered %s%s" % (rep[:2], " and changed the store" if after != before else ""),
+                              {"kind": "handle-objects", "flavour": c["flavour"], "handles": c.get("handles", "one"),
+                               "hseed": c.get("hseed", 0), "history": h[:k + 1]},
+                              expected=["err", "runtime"], observed=rep)
+                return
+
+
+def check_history(h, res, with_ref=True, handles="one", hseed=0):
+    sh, dj = L.Backend("shared", handles=handles, hseed=hseed), L.Backend("disjoint", handles=handles, hseed=hseed)
     ref = Ref() if with_ref else None
     universe = set(r[1] for r in h) | set(r[2] for r in h if r[0] == "find_matching_nodes") | {"g1", "g2", "g3"}
     for r in h:
         universe |= (L.affected(r) or set())
     universe = sorted(universe - {"*"})
-    dj_live = True
+    dj_live = True          # lock step: replies and every graph's content are compared after every call
+    parted = None           # why lock step ended (the known GraphID-rewrite finding / a merge only the shared backend performs):
+    since = 0               # the disjoint backend keeps executing the history and read-only requests are still compared
 
     def bad(sig, what, k, **kw):
-        res.violation("C05:" + sig, what, {"history": h[:k + 1]}, **kw)
+        res.violation("C05:" + sig, what, {"history": h[:k + 1], "handles": handles, "hseed": hseed}, **kw)
+
+    def same_graph(g, walks=False):
+        """both backends show graph g with the same content (the nodes carrying its id and the links between them); for a
+        request that walks the container instead of filtering on GraphID (find_matching_nodes) the disjoint store must also
+        hold nothing else under that key"""
+        return sh.content(g) == dj.content(g) and (not walks or dj.homed(g))
+
+    def sweep(k, why):
+        """every read-only request about a graph both backends show alike gets the same answer from both, whatever happened
+        to other graphs (or to this one) before"""
+        for g in universe:
+            if not same_graph(g):
+                res.count("sweep:%s:graph-differs" % why)
+                continue
+            for q in sweep_queries(g):
+                a, b = L.canon_reply(q[0], sh.ask(sh.pg(g), q)), L.canon_reply(q[0], dj.ask(dj.pg(g), q))
+                res.count("sweep:%s:%s" % (why, q[0]))
+                if a != b:
+                    bad("backends:%s:%s-vs-%s:%s" % (q[0], rsig(a), rsig(b), why),
+                        "both backends show graph %s with the same content, yet %s answers %s on the shared and %s on the disjoint "
+                        "backend (%s)" % (g, q, a[:2], b[:2], why), k, expected=a, observed=b)
+                    return False
+        return True
 
     for k, req in enumerate(h):
         op = req[0]
@@ -582,7 +681,7 @@ def check_history(h, res, with_ref=True):
                     bad("disjoint:merge_nodes:not-refused", "the disjoint backend documents merge_nodes as unsupported (RuntimeError)", k,
                         observed=r_dj)
                 if r_sh[0] == "ok" or any(sh.content(g) != dj.content(g) for g in universe):
-                    dj_live = False
+                    dj_live, parted = False, "after-merge"
             elif r_sh != r_dj:
                 bad("backends:%s:%s-vs-%s" % (op, r_sh[0] if r_sh[0] == "ok" else r_sh[1], r_dj[0] if r_dj[0] == "ok" else r_dj[1]),
                     "%s: shared store answers %s, disjoint store %s" % (op, r_sh[:1] + [r_sh[1]] if r_sh[0] == "err" else "ok", r_dj[:2] if r_dj[0] == "err" else "ok"),
@@ -595,7 +694,7 @@ def check_history(h, res, with_ref=True):
                     "(invisible to lookups, still counted by whole-container methods); the shared store re-homed it" % op, k,
                     expected={g: sh.content(g) for g in universe if sh.content(g) != dj.content(g)},
                     observed={g: dj.content(g) for g in universe if sh.content(g) != dj.content(g)})
-                dj_live = False
+                dj_live, parted = False, "after-GraphID-rewrite"
             if dj_live:
                 for g in universe:
                     if sh.content(g) != dj.content(g):
@@ -608,8 +707,30 @@ def check_history(h, res, with_ref=True):
                         else:
                             bad("backends:%s:content" % op, "after %s the two backends hold different graphs" % op, k,
                                 expected=sh.content(g), observed=dj.content(g))
-                        dj_live = False
+                        dj_live, parted = False, "after-GraphID-rewrite" if writes_gid(req) else None
                         break
+            if not dj_live and parted:
+                since = k
+                if not sweep(k, parted):
+                    parted = None
+        elif parted:
+            # parted company (a known or documented difference): the history goes on on both backends; a read-only request
+            # about graphs both still show alike must still be answered alike
+            r_dj = L.canon_reply(op, dj.apply(req))
+            if op in L.QUERIES:
+                gs = [req[1]] + ([req[2]] if op == "find_matching_nodes" else [])
+                if all(same_graph(g, walks=op == "find_matching_nodes") for g in gs):
+                    res.count("parted:%s:compared" % op)
+                    if r_sh != r_dj:
+                        bad("backends:%s:%s-vs-%s:%s" % (op, rsig(r_sh), rsig(r_dj), parted),
+                            "%s about graph(s) both backends show alike: shared store answers %s, disjoint store %s (%s)"
+                            % (op, r_sh[:2], r_dj[:2], parted), k, expected=r_sh, observed=r_dj)
+                        parted = None
+            if parted and ((k - since) % 3 == 0 or k == len(h) - 1):
+                if not sweep(k, parted):
+                    parted = None
+        if dj_live and k == len(h) - 1:
+            sweep(k, "in-step")
         # (b) the reference model of the documented interface
         if ref is not None:
             r_ref = L.canon_reply(op, ref.apply(req))
@@ -751,9 +872,28 @@ def small_alphabet():
 def oracle(ctx, res, n=None, length=40, exhaustive=None):
     hs = gen_histories(ctx, "oracle", n or ctx.scale(300, 3000), length)
     hs += gen_histories(ctx, "oracle-keys", (n or ctx.scale(300, 3000)) // 3, length, keys=0.1)[len(load_corpus()):]
-    for h in hs:
+    ncorpus = len(load_corpus())
+    for c in load_handle_corpus():
         res.evaluations += 1
-        check_history(h, res)
+        check_handle_objects(c, res)
+    # clones and imports are C04's for the three-way comparison; here: histories with clones on the disjoint backend through
+    # kept handle objects (the objects clone_graph returns among them), every merge_nodes must be refused
+    rngh = ctx.sub_rng("oracle-handle-objects")
+    for i in range(ctx.scale(60, 600)):
+        gids, nids = ["g1", "g2", "g3"], ["n1", "n2", "n3", "n4"]
+        hh = L.gen_history(rngh, rngh.randint(8, 20), ngraphs=3, scenario=0.3, merge=True,
+                           kinds=["add_graph", "clone", "clone", "add_node", "delete_node", "merge_nodes", "merge_nodes", "merge_nodes",
+                                  "delete_graph", "list_all_node_ids"])
+        res.evaluations += 1
+        check_handle_objects({"flavour": "disjoint", "handles": ["one", "two"][i % 2], "hseed": i, "history": hh}, res)
+    for hi, h in enumerate(hs):
+        res.evaluations += 1
+        res.count("handles:%s" % handle_mode(hi))
+        check_history(h, res, handles=handle_mode(hi), hseed=hi)
+        if hi < ncorpus:
+            for hm in L.HANDLE_MODES:
+                if hm != handle_mode(hi):
+                    check_history(h, res, handles=hm, hseed=hi)
         if len(set(q[1] for q in h)) >= 2:
             res.nontrivial.add(L.kind_seq(h))
     # small scope: every continuation of PREFIX of depth 2 over the whole alphabet; in the thorough tier also every
@@ -780,7 +920,11 @@ def search(ctx, res, broken):
 
 def replay(ctx, payload):
     r = core.Result()
-    check_history(payload["case"]["history"], r)
+    c = payload["case"]
+    if c.get("kind") == "handle-objects":
+        check_handle_objects(c, r)
+    else:
+        check_history(c["history"], r, handles=c.get("handles", "one"), hseed=c.get("hseed", 0))
     for v in r.violations:
         print("  ", v["signature"], v["what"])
     return bool(r.violations)
